@@ -5,6 +5,7 @@ import (
 	"encoding"
 	"flag"
 	"fmt"
+	"math"
 	"os"
 	"reflect"
 	"time"
@@ -508,6 +509,12 @@ func willOverflow(val, target reflect.Value) bool {
 		return target.OverflowUint(v)
 	case reflect.Float32, reflect.Float64:
 		v := val.Float()
+		if target.Kind() == reflect.Float32 {
+			// the flag was parsed as a float64: a decimal that rounds to
+			// a finite float32 is in range (the shortest text of
+			// math.MaxFloat32 is, as a float64, slightly above it).
+			return !math.IsInf(v, 0) && math.IsInf(float64(float32(v)), 0)
+		}
 		return target.OverflowFloat(v)
 	case reflect.Complex64, reflect.Complex128:
 		v := val.Complex()
